@@ -27,10 +27,6 @@ def run_config(ctx, exes, be, lvl, lines, tag):
         if v:
             genuine += 1
             key, what = v
-            if be == "bw" and lvl in (3, 5) and c == m and l.split()[0] in G.SQUARE_USERS:
-                # root cause shared by all these ops: gf65376_square / gf27500_square drop a carry (the model
-                # reproduces the code exactly, so agreement with the model identifies this defect)
-                key, what = "bw:square:lost-carry", "x86 squaring loses a carry at levels 3/5 (gf65376_square / gf27500_square): " + what
             ctx.violation(key, "%s [%s lvl%d] %s" % (what, be, lvl, l[:200]),
                           dict(backend=be, level=lvl, op_line=l, real_code_output=c, model_output=m,
                                how_to_replay="echo '%s' | <drv_gf compiled for %s lvl%d>   (./check C07 --replay <this file>)" % (l, be, lvl)))
@@ -59,7 +55,7 @@ def search(ctx):
     for be, _ in BES:
         for lvl in (1, 3, 5):
             L = G.LEVELS[lvl]
-            lines = G.fixed_lines(L, be) + G.gen_lines(rng, L, be, 300, 30, {}, {})
+            lines = G.corpus_lines("C07", L, be) + G.fixed_lines(L, be) + G.gen_lines(rng, L, be, 300, 30, {}, {})
             cout = G.run_c(exes[(be, lvl)], lines)
             for l, c in zip(lines, cout):
                 v = G.oracle(L, be, l, c.split())
@@ -86,7 +82,7 @@ def run(ctx):
         for lvl in (1, 3, 5):
             L = G.LEVELS[lvl]
             rng = ctx.rng.fork("c07:%s:%d" % (be, lvl))
-            lines = G.fixed_lines(L, be) + G.gen_lines(rng, L, be, n_cheap, n_exp, hist, ophist)
+            lines = G.corpus_lines("C07", L, be) + G.fixed_lines(L, be) + G.gen_lines(rng, L, be, n_cheap, n_exp, hist, ophist)
             total_dis += run_config(ctx, exes, be, lvl, lines, "gf")
             if lvl == 1 and be == "ref":
                 for l in lines[20:24]:
